@@ -4,7 +4,7 @@ import hist
 
 ID = "C07"
 LEAN_MODULES = ["CatiiProps.C07"]
-USES_TRANSLATOR = ['validate', 'shift_to', 'append']   # Gen/ValidateGen.lean: iindex.validate(True) as a predicate (tools/translate_validate.py); Gen/ShiftGen.lean (tools/translate_shift.py)
+USES_TRANSLATOR = ['validate', 'shift_to', 'append', 'filtered']   # Gen/ValidateGen.lean: iindex.validate(True) as a predicate (tools/translate_validate.py); Gen/ShiftGen.lean (tools/translate_shift.py)
 RULE = ("same histories as C06; after EVERY step the library's validate(True) plus the range / arity / non-emptiness / "
         "dtype / int-coordinate conditions it does not check, and the derived facts (abscissae = values occurring, "
         "sparsity); the model's decidable wf predicate is evaluated on the same result; plus long sparse many-valued inputs (300-900 rows) "
